@@ -17,7 +17,7 @@ META = dict(
                 'function un-instrumented; "Confirmed over all paths" = decided within the bound, "Not confirmed" = no counterexample '
                 'within the time box (bounded bug hunting), reported as undecided',
     bounds=['documents with <= 2 elements, dict/list leaves of length <= 2-4, strings <= 2-26 chars, ints within +-1e6',
-            'per-condition time box 25 s (quick) / 120 s (thorough)'],
+            'per-condition time box 25 s (quick) / 120 s (thorough)', 'aliases: 1-2 other names of 1-2 characters for a Transceiver, an Edfa, a mode'],
     assumptions=['libyang validation (compiled) and file I/O are not part of the conversion semantics checked here',
                  'CPython float formatting/parsing (format(x, ".Nf"), float(str)) is trusted',
                  'a harness that ends "Not confirmed" gives bounded bug-hunting assurance only'],
